@@ -37,6 +37,13 @@ func nTies(tier string) int {
 	return 400
 }
 
+func nPaged(tier string) int {
+	if tier == "thorough" {
+		return 12000
+	}
+	return 1200
+}
+
 func nFlow(tier string) int {
 	if tier == "thorough" {
 		return 8000
@@ -51,8 +58,12 @@ func init() {
 			"(2) ties: 14-24 overlapping positioned siblings (some nested in plain blocks) with z-indexes from two or three values of one sign, so that one z-index class holds more than 12 contexts; " +
 			"(3) flow: 4-9 static blocks / inline-blocks / spans with text, nested up to 4 deep and pulled over each other, all painted by steps 4 and 7 of one context; " +
 			"(4) random trees of 3-10 boxes, nesting <= 3, block / inline-block / inline, static / relative / absolute, z-index from {-2,-1,-1,0,1,1,2} or auto (also set on 30 % of the non-positioned boxes, where it must be ignored), floats, opacity, translate+scale transforms, overflow:hidden, negative margins and small offsets so that most pairs overlap. " +
+			"(5) paged grid: three pages (forced breaks) each holding one competitor box with the same placement out of {static, relative z-index auto/-1/0/1, absolute, opacity}, a position:fixed box declared on any of the three pages before or after the competitor with z-index auto/0/1/-1, a second fixed box on the first or last page with z-index auto/1, all overlapping: every assignment (672 documents); " +
+			"(6) paged: the random trees of (4) with position:fixed as a fourth positioning scheme (at least one fixed box per document, also nested in other boxes and in other fixed boxes), laid out on 1-3 pages by forced breaks before top-level in-flow blocks; every page is judged against Appendix E on its own rendering tree = the boxes laid out on the page plus every fixed box of the other pages (CSS 2.1 9.6.1), in document order, and one reading of the specification must explain all the pages. " +
 			"Every box has unique opaque background, border, text and outline colours. A case is non-trivial when at least three pairs of layers of different boxes with overlapping painted regions were judged against the Appendix E model; distinct = distinct document.",
-		N: func(tier string) int { return exhaustiveN + nTies(tier) + nFlow(tier) + nRandom(tier) },
+		N: func(tier string) int {
+			return exhaustiveN + nTies(tier) + nFlow(tier) + nRandom(tier) + pagedGridN + nPaged(tier)
+		},
 		Gen: func(r *rand.Rand, i int, tier string) any {
 			if i < exhaustiveN {
 				return exhaustiveCase(i)
@@ -64,14 +75,23 @@ func init() {
 				return flowCase(r)
 			}
 			k := i - exhaustiveN - nTies(tier) - nFlow(tier)
-			return randomCase(r, genOpts{effects: k%2 == 1, inline: k%4 >= 2})
+			if k < nRandom(tier) {
+				return randomCase(r, genOpts{effects: k%2 == 1, inline: k%4 >= 2})
+			}
+			// the paged families come last, so that the case lists of the other families are unchanged
+			k -= nRandom(tier)
+			if k < pagedGridN {
+				return pagedGridCase(k)
+			}
+			k -= pagedGridN
+			return pagedCase(r, genOpts{effects: k%2 == 1, inline: k%4 >= 2})
 		},
 		Check: check,
 		Floor: func(tier string) int {
 			if tier == "thorough" {
-				return 70000
+				return 78000
 			}
-			return 11000
+			return 12500
 		},
 		CounterFloors: func(tier string) map[string]int64 {
 			// about 40 % of what the quick tier observes on the unchanged tree (seed 1)
@@ -94,6 +114,14 @@ func init() {
 				"groups_composited":              500,
 				"scope_clip_outline_items":       300,
 				"zindex_on_static_context_boxes": 100,
+				// paged documents with fixed boxes (families 5 and 6)
+				"paged_docs":                 400,
+				"fixed_box_items":            14000,
+				"fixed_repeated_items":       7000, // layers of fixed boxes painted on a page they are not declared on
+				"judged_fixed_earlier_pairs": 10000,
+				"judged_fixed_later_pairs":   9000,
+				"judged_fixed_earlier_ties":  2500, // decided by tree order alone: the fixed box of an earlier page first
+				"judged_fixed_later_ties":    2500, // ... the fixed box of a later page last
 			}
 			if tier == "thorough" {
 				for k := range m {
@@ -106,7 +134,9 @@ func init() {
 			"the recorder trace is what a backend receives; paint order = order of Paint/DrawText calls with groups expanded where DrawWithOpacity composites them",
 			"Ahem metrics (1em square glyphs) give the text rectangles; fills are rectangles or even-odd rectangle rings because borders/outlines are single-colour solid and there are no radii",
 			"where Appendix E leaves a choice (outlines in step 7 or step 10) or webrender follows WeasyPrint's simplification (overflow:hidden establishes a z-index:0 stacking context) both readings are accepted, but one reading must explain all judged pairs of a document",
-			"transforms are translate+scale only (axis-aligned), documents fit one page; floats that the layout may defer below their line are neither positioned nor inside positioned / opacity spans (open finding F1)",
+			"no generated box is fragmented: pages are separated by forced breaks before top-level blocks, only <html> and <body> (which paint nothing) span several pages; fixed boxes are repeated on every page and take their place in tree order from the document (a fixed box of an earlier page precedes the content of the page, one of a later page follows it)",
+			"the ancestors of a fixed box are neither overflow:hidden nor transformed; in documents of several pages they form no stacking context / opacity group (unspecified how those would extend to the other pages), are not absolutely positioned (open finding F5: such a fixed box is not repeated) and spans whose last child holds a fixed box have no border / padding (open finding F6, second route: the fixed box is repeated twice); the first route of F6 (a line laid out again beside a float) is matched by the signature fixed-repeated-twice",
+			"transforms are translate+scale only (axis-aligned); floats that the layout may defer below their line are neither positioned nor inside positioned / opacity spans (open finding F1)",
 		},
 		Exhaustive: func(tier string) bool { return false },
 		Batch:      250,
@@ -164,24 +194,57 @@ func check(raw json.RawMessage) fw.Result {
 	if err != nil {
 		return fw.Result{Verdict: fw.Inconclusive, Msg: "render: " + err.Error()}
 	}
-	if len(rd.Document.Pages) != 1 || len(rd.Rec.Pages) != 1 {
-		res.Verdict = fw.Skip
-		res.Count("skipped_multi_page", 1)
-		return res
+	want := pageCount(in.Roots)
+	if len(rd.Document.Pages) != want || len(rd.Rec.Pages) != want {
+		if want == 1 {
+			res.Verdict = fw.Skip
+			res.Count("skipped_multi_page", 1)
+			return res
+		}
+		return fw.Result{Verdict: fw.Inconclusive, Msg: fmt.Sprintf("the document is laid out on %d pages, its forced page breaks give %d", len(rd.Document.Pages), want)}
 	}
-	page := rd.Document.Pages[0].VerifPageBox()
-	lay := collectLayout(page)
-	scale := float64(float32(0.75))
-	base := mat{1 / scale, 0, 0, -1 / scale, 0, float64(page.Height.V())}
-	obs := flatten(rd.Rec, base)
-	if len(obs.Unsupported) > 0 {
-		return fw.Result{Verdict: fw.Inconclusive, Msg: "trace outside the oracle's model: " + strings.Join(obs.Unsupported, "; ")}
+	all := map[int]*Node{}
+	walk(in.Roots, func(n *Node, _ []*Node) { all[n.ID] = n })
+	okVar := make([]bool, len(variants))
+	for vi := range okVar {
+		okVar[vi] = true
 	}
-	j := &judge{in: &in, res: &res, lay: lay, obs: obs}
-	j.run()
-	if debug {
-		j.dump()
+	cross := 0
+	for p := 0; p < want; p++ {
+		page := rd.Document.Pages[p].VerifPageBox()
+		lay := collectLayout(page)
+		scale := float64(float32(0.75))
+		base := mat{1 / scale, 0, 0, -1 / scale, 0, float64(page.Height.V())}
+		obs := flatten(rd.Rec, p, base)
+		if len(obs.Unsupported) > 0 {
+			return fw.Result{Verdict: fw.Inconclusive, Msg: "trace outside the oracle's model: " + strings.Join(obs.Unsupported, "; ")}
+		}
+		roots, foreign := pageRoots(in.Roots, p)
+		j := &judge{in: &in, res: &res, lay: lay, obs: obs, roots: roots, foreign: foreign, page: p, npages: want, all: all}
+		j.run()
+		if debug {
+			j.dump()
+		}
+		if res.Verdict != fw.OK {
+			return res
+		}
+		cross += j.cross
+		for vi := range okVar {
+			okVar[vi] = okVar[vi] && j.okVar[vi]
+		}
 	}
+	if want > 1 {
+		res.Count("paged_docs", 1)
+		one := false
+		for _, ok := range okVar {
+			one = one || ok
+		}
+		if !one {
+			res.Fail("stacking-order", "every page of the document follows some reading of CSS 2.1 Appendix E (outlines in step 7 or 10, overflow establishing a stacking context or not), but no single reading explains all the pages\n  document: "+in.HTML)
+			return res
+		}
+	}
+	res.Nontrivial = cross >= 3
 	return res
 }
 
@@ -192,18 +255,34 @@ type nodeInfo struct {
 	anc []*Node
 }
 
+// judge decides one page of the document
 type judge struct {
-	in    *c16In
-	res   *fw.Result
-	lay   map[int]*layoutBox
-	obs   *observation
-	nodes map[int]*nodeInfo
-	byKey map[Key][]int // item indexes per key, in effective paint order
+	in      *c16In
+	res     *fw.Result
+	lay     map[int]*layoutBox
+	obs     *observation
+	roots   []*Node       // children of <body> in the rendering tree of the page (pageRoots)
+	foreign map[int]int   // boxes of fixed sub-trees declared on an earlier (-1) / later (+1) page
+	page    int           // 0-based
+	npages  int           // pages of the document
+	all     map[int]*Node // every generated box of the document
+	nodes   map[int]*nodeInfo
+	byKey   map[Key][]int // item indexes per key, in effective paint order
+	cross   int           // judged overlapping pairs of layers of different boxes
+	okVar   []bool        // readings of Appendix E (variants) that explain every judged pair of the page
 }
 
 func (j *judge) fail(sig, format string, a ...any) {
-	j.res.Fail(sig, fmt.Sprintf(format, a...)+"\n  document: "+j.in.HTML)
+	pg := ""
+	if j.npages > 1 {
+		pg = fmt.Sprintf("page %d of %d: ", j.page+1, j.npages)
+	}
+	j.res.Fail(sig, pg+fmt.Sprintf(format, a...)+"\n  document: "+j.in.HTML)
 }
+
+// body is the <body> of the page's rendering tree; its own position / z-index / opacity are only
+// generated in single-page documents
+func (j *judge) body() *Node { return j.in.Body }
 
 // expected CTM (layout coordinates -> page coordinates) for the layers of n: the transforms of n and
 // of all its ancestors, each about the centre of its laid-out border box (transform-origin 50% 50%).
@@ -229,12 +308,17 @@ func (j *judge) ctmOf(n *Node, anc []*Node) (mat, bool) {
 func (j *judge) run() {
 	res := j.res
 	j.nodes = map[int]*nodeInfo{}
-	walk([]*Node{bodyNode(j.in.Body, j.in.Roots)}, func(n *Node, anc []*Node) { j.nodes[n.ID] = &nodeInfo{n, anc} })
+	walk([]*Node{bodyNode(j.body(), j.roots)}, func(n *Node, anc []*Node) { j.nodes[n.ID] = &nodeInfo{n, anc} })
+	j.okVar = make([]bool, len(variants))
 
 	// --- every paint must be a known layer of a generated box ---------------------------------------
 	j.byKey = map[Key][]int{}
 	for i := range j.obs.Items {
 		it := &j.obs.Items[i]
+		if it.Known && j.nodes[it.Key.ID] == nil && j.all[it.Key.ID] != nil {
+			j.fail("paint-wrong-page", "%s is painted on this page, but the box is laid out on another page and is not a fixed box (only boxes with position:fixed are repeated)", it.Key)
+			return
+		}
 		if !it.Known || j.nodes[it.Key.ID] == nil {
 			res.Verdict = fw.Inconclusive
 			res.Msg = fmt.Sprintf("paint with a colour that is no generated layer: event %d rgb%v %s", it.Ev, it.Colour, it.Outer)
@@ -255,6 +339,10 @@ func (j *judge) run() {
 	sort.Ints(ids)
 	for _, id := range ids {
 		n := j.nodes[id].n
+		if j.lay[id] == nil && j.foreign[id] != 0 {
+			j.fail("fixed-not-repeated", "b%d is a fixed box (or inside one) declared on another page; CSS 2.1 9.6.1 repeats fixed boxes on every page, but the page has no box for it and nothing of it is painted", id)
+			return
+		}
 		if j.lay[id] == nil {
 			res.Verdict = fw.Inconclusive
 			res.Msg = fmt.Sprintf("no laid-out box for b%d", id)
@@ -274,7 +362,13 @@ func (j *judge) run() {
 				if got > want {
 					sig = "paint-duplicated"
 				}
-				j.fail(sig, "%s is painted %d times, expected %d (one laid-out box, visible, non-empty)", Key{id, layer}, got, want)
+				extra := ""
+				if got == 2*want && j.foreign[id] != 0 {
+					// open finding F6: a repeated fixed box that is in the page's box tree twice
+					sig = "fixed-repeated-twice"
+					extra = fmt.Sprintf("; the box belongs to a fixed box declared on another page, which CSS 2.1 9.6.1 repeats once on every page, but the box tree of this page holds %d boxes for b%d", j.lay[id].N, id)
+				}
+				j.fail(sig, "%s is painted %d times, expected %d (one laid-out box, visible, non-empty)%s", Key{id, layer}, got, want, extra)
 				return
 			}
 		}
@@ -392,6 +486,12 @@ func (j *judge) run() {
 		if it.Key.Layer == LOutline {
 			res.Count("outline_items", 1)
 		}
+		if n.fixed() {
+			res.Count("fixed_box_items", 1)
+		}
+		if j.foreign[n.ID] != 0 {
+			res.Count("fixed_repeated_items", 1) // painted on a page other than the one the fixed box is declared on
+		}
 	}
 
 	// --- (2) layers of one box ----------------------------------------------------------------------
@@ -444,6 +544,6 @@ func (j *judge) dump() {
 	for i, it := range j.obs.Items {
 		fmt.Fprintf(os.Stderr, "  %3d ev%-4d %-16s %s ring=%v opac=%v clips=%v\n", i, it.Ev, it.Key, it.Outer, it.Ring, it.Opac, clipRects(it.Clips))
 	}
-	seq, _, _ := expected(j.in.Body, j.in.Roots, variant{false, true})
+	seq, _, _ := expected(j.body(), j.roots, variant{false, true})
 	fmt.Fprintln(os.Stderr, "  expected:", seq)
 }
